@@ -925,6 +925,18 @@ impl DhcpService {
 
         /* Construct the raw packet from the reply to send */
         let replybuf = reply.serialise();
+        /* A UDP datagram carries at most 65507 octets; the frame builder's 16 bit length
+         * fields cannot describe more.
+         */
+        if replybuf.len() > 65507 {
+            log::warn!(
+                "{}: Reply of {} octets is too large to send",
+                format_client(&reply),
+                replybuf.len()
+            );
+            DHCP_ERRORS.with_label_values(&["SEND_ERROR"]).inc();
+            return;
+        }
         let etherbuf = packet::Fragment::new_udp4(
             *request.serverip.with_port(67).as_sockaddr_in().unwrap(),
             &srcll,
